@@ -37,12 +37,51 @@ def parsePred (s : String) : Option Pred :=
   | ["odd"] => some .odd
   | ["eq", v] => v.toInt?.map .eq
   | ["lt", v] => v.toInt?.map .lt
+  | ["gt", v] => v.toInt?.map .gt
+  | [v] => v.toInt?.map .eq
   | _ => none
 
 def parseFn : String → Option Fn
   | "inc" => some .inc
   | "dbl" => some .dbl
   | "neg" => some .neg
+  | _ => none
+
+/-- `pred[,key=f][,start=n][,end=n][,count=n][,fromend]` or `dups[,fromend]` -/
+def parseSpec (s : String) : Option RemSpec :=
+  match s.splitOn "," with
+  | [] => none
+  | hd :: opts => do
+    let base : RemSpec ← if hd = "dups" then some { pred := .even, dups := true } else (parsePred hd).map (fun p => { pred := p })
+    opts.foldlM (fun (sp : RemSpec) o =>
+      match o.splitOn "=" with
+      | ["fromend"] => some { sp with fromEnd := true }
+      | ["key", f] => (parseFn f).map (fun k => { sp with key := some k })
+      | ["start", n] => n.toNat?.map (fun k => { sp with start := k })
+      | ["end", n] => n.toNat?.map (fun k => { sp with stop := some k })
+      | ["count", n] => n.toNat?.map (fun k => { sp with count := some k })
+      | _ => none) base
+
+/-- `pred[,key=f]` -/
+def parsePredKey (s : String) : Option (Pred × Option Fn) :=
+  match s.splitOn "," with
+  | [p] => (parsePred p).map (fun q => (q, none))
+  | [p, k] => do
+      let q ← parsePred p
+      match k.splitOn "=" with
+      | ["key", f] => (parseFn f).map (fun g => (q, some g))
+      | _ => none
+  | _ => none
+
+/-- `asc|desc[,key=f]` -/
+def parseSortOpts (s : String) : Option (Bool × Option Fn) :=
+  match s.splitOn "," with
+  | [d] => if d = "desc" then some (true, none) else if d = "asc" then some (false, none) else none
+  | [d, k] => do
+      let desc ← if d = "desc" then some true else if d = "asc" then some false else none
+      match k.splitOn "=" with
+      | ["key", f] => (parseFn f).map (fun g => (desc, some g))
+      | _ => none
   | _ => none
 
 /-- every variable of a history is let-bound to nil before the first step -/
@@ -86,14 +125,17 @@ def parseStep (env : List (String × Ref)) (ws : List String) : Option Step :=
   | [t, "nthcdr", n, x] => do some ⟨t, .nthcdr (← nat n) (← var x), .list, none⟩
   | [t, "pop", x] => do some ⟨t, .nthcdr 1 (← var x), .carOfArg, some x⟩
   | [t, "last", n, x] => do some ⟨t, .last (← nat n) (← var x), .list, none⟩
-  | [t, "member", v, x] => do some ⟨t, .member (← int v) (← var x), .list, none⟩
+  | [t, "member", pk, x] => do let (p, k) ← parsePredKey pk; some ⟨t, .member p k (← var x), .list, none⟩
+  | [t, "liststar1", x] => do some ⟨t, .alias (← var x), .list, none⟩
+  | [t, "liststar2", v, x] => do some ⟨t, .cons (← int v) (← var x), .list, none⟩
+  | [t, "mapcar2", x, y] => do some ⟨t, .mapcar2 (← var x) (← var y), .list, none⟩
   | [t, "butlast", n, x] => do some ⟨t, .butlast (← nat n) (← var x), .list, none⟩
   | [t, "subseq", s, e, x] => do
       let e' ← if e = "-" then some none else (nat e).map some
       some ⟨t, .subseq (← nat s) e' (← var x), .list, none⟩
   | [t, "copylist", x] => do some ⟨t, .copyList (← var x), .list, none⟩
   | [t, "reverse", x] => do some ⟨t, .reverse (← var x), .list, none⟩
-  | [t, "remove", p, x] => do some ⟨t, .remove (← parsePred p) (← var x), .list, none⟩
+  | [t, "remove", sp, x] => do some ⟨t, .remove (← parseSpec sp) (← var x), .list, none⟩
   | [t, "mapcar", f, x] => do some ⟨t, .mapcar (← parseFn f) (← var x), .list, none⟩
   | [t, "rplaca", x, v] => do some ⟨t, .rplaca (← var x) (← int v), .list, none⟩
   | [t, "setcar", x, v] => do let v' ← int v; some ⟨t, .rplaca (← var x) v', .atom v', none⟩
@@ -103,8 +145,9 @@ def parseStep (env : List (String × Ref)) (ws : List String) : Option Step :=
   | [t, "nconc", x, y] => do some ⟨t, .nconc (← var x) (← var y), .list, none⟩
   | [t, "add", x, vs] => do some ⟨t, .add (← var x) (← parseVals vs), .list, none⟩
   | [t, "nreverse", x] => do some ⟨t, .nreverse (← var x), .list, none⟩
-  | [t, "sort", x] => do some ⟨t, .sort (← var x), .list, none⟩
-  | [t, "delete", p, x] => do some ⟨t, .delete (← parsePred p) (← var x), .list, none⟩
+  | [t, "sort", x] => do some ⟨t, .sort false none (← var x), .list, none⟩
+  | [t, "sort", o, x] => do let (d, k) ← parseSortOpts o; some ⟨t, .sort d k (← var x), .list, none⟩
+  | [t, "delete", sp, x] => do some ⟨t, .delete (← parseSpec sp) (← var x), .list, none⟩
   | _ => none
 
 /-- observation token fields `name=vals` -/
